@@ -1,7 +1,11 @@
 package c15
 
 import (
+	"encoding/binary"
+	"fmt"
 	"hash/fnv"
+	"sort"
+	"strings"
 
 	"github.com/tetratelabs/wazero/verifharness/core"
 )
@@ -113,4 +117,150 @@ func prngTuple(f *fnSpec, vs [][]uint64, r *core.Rng, niceBias int, tame bool) [
 		}
 	}
 	return t
+}
+
+// structuredPoll builds one poll_oneoff call with 1-6 well-formed
+// subscriptions (clock relative/absolute, fd_read, fd_write on descriptors of
+// every class) written into guest memory, with the in/out arrays and the
+// nevents cell placed normally, overlapping each other, or at the end of memory.
+func structuredPoll(r *core.Rng, e *genEnv) callSpec {
+	S := uint32(e.size)
+	n := 1 + r.Intn(6)
+	subs := make([]byte, 48*n)
+	var note, shape strings.Builder
+	pickFd := func() (uint32, byte) {
+		switch x := r.Intn(100); {
+		case x < 30:
+			return uint32(r.Intn(3)), 's'
+		case x < 45:
+			return 3, 'p'
+		case x < 75:
+			return uint32(4 + r.Intn(5)), 'm'
+		case x < 85:
+			return []uint32{9, 10, 12, 13}[r.Intn(4)], 'm'
+		case x < 88:
+			return 77, 'b'
+		case x < 95:
+			return []uint32{1 << 20, 1<<31 - 1, 1 << 16}[r.Intn(3)], 'h'
+		default:
+			return 0xffffffff, 'n'
+		}
+	}
+	for i := 0; i < n; i++ {
+		b := subs[48*i : 48*i+48]
+		binary.LittleEndian.PutUint64(b, 0x0101010101010101*uint64(i+1))
+		switch x := r.Intn(100); {
+		case x < 22: // relative clock, small timeout (the default nanosleep is a fake)
+			to := []uint64{0, 1, 1000, 1000000}[r.Intn(4)]
+			b[8] = 0
+			binary.LittleEndian.PutUint32(b[16:], uint32(r.Intn(2)))
+			binary.LittleEndian.PutUint64(b[24:], to)
+			fmt.Fprintf(&note, "clock(rel,%d) ", to)
+			shape.WriteByte('c')
+		case x < 30: // absolute clock
+			b[8] = 0
+			binary.LittleEndian.PutUint64(b[24:], 5)
+			binary.LittleEndian.PutUint16(b[40:], 1)
+			note.WriteString("clock(abs) ")
+			shape.WriteByte('a')
+		case x < 32: // undefined clock flags
+			b[8] = 0
+			binary.LittleEndian.PutUint16(b[40:], 2)
+			note.WriteString("clock(flags=2) ")
+			shape.WriteByte('x')
+		case x < 72:
+			fd, cl := pickFd()
+			b[8] = 1
+			binary.LittleEndian.PutUint32(b[16:], fd)
+			fmt.Fprintf(&note, "fd_read(%d) ", int32(fd))
+			shape.WriteByte('r')
+			shape.WriteByte(cl)
+		case x < 98:
+			fd, cl := pickFd()
+			b[8] = 2
+			binary.LittleEndian.PutUint32(b[16:], fd)
+			fmt.Fprintf(&note, "fd_write(%d) ", int32(fd))
+			shape.WriteByte('w')
+			shape.WriteByte(cl)
+		default:
+			b[8] = 7
+			note.WriteString("tag(7) ")
+			shape.WriteByte('t')
+		}
+	}
+	m := uint32(n)
+	switch x := r.Intn(100); {
+	case x < 7 && n > 1:
+		m = uint32(n - 1)
+	case x < 14:
+		m = uint32(n + 1)
+	case x < 16:
+		m = 0
+	}
+	pi, po, pn := 0, 0, 0
+	if r.Chance(1, 2) {
+		pi, po, pn = r.Intn(4), r.Intn(7), r.Intn(5)
+	}
+	in := uint32(0x2000)
+	switch pi {
+	case 1:
+		in = S - uint32(48*n) // ends exactly at the end of memory
+	case 2:
+		in = S - uint32(48*n) + 8 // straddles the end
+	case 3:
+		in = 0x2001
+	}
+	out := uint32(aOut)
+	switch po {
+	case 1:
+		out = in // the two arrays coincide
+	case 2:
+		out = in + 16
+	case 3:
+		out = in - 32
+	case 4:
+		out = S - 32*m
+	case 5:
+		out = S - 32*m + 4
+	case 6:
+		out = in + uint32(48*n)
+	}
+	nev := uint32(aOut2)
+	switch pn {
+	case 1:
+		nev = S - 4
+	case 2:
+		nev = out + 8
+	case 3:
+		nev = in + 16
+	case 4:
+		nev = S - 2
+	}
+	data := subs
+	if in < S && uint64(in)+uint64(len(data)) > uint64(S) {
+		data = data[:S-in]
+	}
+	c := callSpec{Fn: "poll_oneoff", Args: []uint64{uint64(in), uint64(out), uint64(m), uint64(nev)}}
+	if in < S {
+		c.Patch = []memPatch{{At: in, Data: data}}
+	}
+	c.Note = fmt.Sprintf("subscriptions=[%s] placement in/out/nevents=%d/%d/%d", strings.TrimSpace(note.String()), pi, po, pn)
+	// coarse class: the set of subscription kinds (with descriptor class) + placement
+	toks := map[string]bool{}
+	sh := shape.String()
+	for i := 0; i < len(sh); i++ {
+		t := sh[i : i+1]
+		if sh[i] == 'r' || sh[i] == 'w' {
+			t = sh[i : i+2]
+			i++
+		}
+		toks[t] = true
+	}
+	var tl []string
+	for t := range toks {
+		tl = append(tl, t)
+	}
+	sort.Strings(tl)
+	c.Shape = fmt.Sprintf("%s/%d%d%d", strings.Join(tl, ","), pi, po, pn)
+	return c
 }
